@@ -89,6 +89,7 @@ class Lower:
         self.locals = {}        # name -> type
         self.flags = []         # oddities worth reporting
         self.aliases = {}       # reference-typed locals -> IR of the object they are bound to
+        self.uninit = set()     # locals declared without initialiser and not assigned yet (in source order)
 
     # ------------------------------------------------------------ expressions
     def ex(self, e):
@@ -281,6 +282,8 @@ class Lower:
             out = []
             for v in s['vars']:
                 self.locals[v['name']] = v['ty']
+                if 'init' not in v:
+                    self.uninit.add(v['name'])
                 if 'init' in v:
                     init = v['init']
                     if init.get('k') in ('Ctor',) and not init['args']:
@@ -349,7 +352,12 @@ class Lower:
         if k == 'Bin':
             op = e['op']
             if op == '=':
-                return [('assign', self.ex(e['a']), self.ex(e['b']), l)]
+                lhs, rhs = self.ex(e['a']), self.ex(e['b'])
+                if lhs[0] == 'var' and lhs[1] in self.uninit:
+                    self.uninit.discard(lhs[1])
+                    if rhs[0] == 'num' and rhs[1] == 0:
+                        self.decl_zero.append((lhs[1], l))      # late zero-initialisation of a local
+                return [('assign', lhs, rhs, l)]
             if op in ('+=', '-=', '*=', '/='):
                 a = self.ex(e['a'])
                 return [('assign', a, ('op', op[0], a, self.ex(e['b'])), l)]
